@@ -240,7 +240,7 @@ PROPS = {
                 "present or absent), administrator set-user toggling the disconnect privilege (admin flag), disconnect, kick, private message "
                 "to a live or unused id, get-client-info and invitation addressed to an id, and fast-forward of the production client registry "
                 "by {1,100,30000,65000,65530,65536,70000} add/delete cycles, and idling for {50 s, 295 s, 311 s, 10 min} of fake time with the production "
-                "keep-alive loop running (users become away after 300 s; a keep-alive request must not wake them, any other request must); TestC13Wrap keeps two users connected, moves the counter to 10 before "
+                "keep-alive loop running (users become away after 300 s and wake up with their next request: both must reach every roster); TestC13Wrap keeps two users connected, moves the counter to 10 before "
                 "the 16-bit wrap and continues; every client folds the 301/302 notifications it receives into the user list it fetched; after "
                 "every step: registry size == live connections, ids distinct, each folded roster == fresh user list restricted to completed "
                 "logins (id, name, icon, flags as integers), id-addressed requests reach exactly the holder, refuse-messages and auto-reply "
